@@ -9,7 +9,8 @@ RULE = ('every labelled simple graph on n <= N vertices (all 2^(n(n-1)/2) edge s
         'ascending and in descending vertex order, x {min_fill, quickbb, acb}: decomposition validity (tree, vertex '
         'and edge cover, running intersection) checked by the harness; width vs exact treewidth (subset DP); '
         'min_fill/quickbb orders re-eliminated by the harness; bounds bracket the treewidth. Non-trivial = graph '
-        'with >= 1 edge; distinct by (n, edge bits, order). Thorough tier additionally: every one-vertex extension (8 vertices) '
+        'with >= 1 edge; distinct by (n, edge bits, order). Quick tier additionally replays the 80 pre-computed 7-vertex graphs on '
+        'which min-fill is suboptimal (data/hard7.json) and all their one-vertex extensions. Thorough tier additionally: every one-vertex extension (8 vertices) '
         'of each 7-vertex graph on which min-fill is suboptimal, i.e. where quickbb actually has to search.')
 ASSUMPTIONS = ['vertices are small ints', 'treewidth oracle: Bodlaender et al. subset DP, plain Python']
 METHODS = ('min_fill', 'quickbb', 'acb')
@@ -28,6 +29,15 @@ def gen_cases(tier, seed):
         total = 1 << (n * (n - 1) // 2)
         for lo in range(0, total, BLOCK):
             yield (n, lo, min(total, lo + BLOCK))
+    if tier == 'quick':
+        # pre-computed inputs (mc.gen_hard7): all labelled 7-vertex graphs on which min-fill is suboptimal, i.e. on which
+        # quickbb's branch and bound actually runs; replayed in both vertex orders, plus all their one-vertex extensions
+        import json, os
+        path = os.path.join(os.path.dirname(os.path.dirname(os.path.abspath(__file__))), 'data', 'hard7.json')
+        if os.path.exists(path):
+            for bits in json.load(open(path)):
+                yield (7, bits, bits + 1)
+                yield ('ext8', bits)
     if tier == 'thorough':
         n = 7
         total = 1 << 21
